@@ -16,7 +16,9 @@ Decided by TLC on spec/isa/RWInfo.tla, bound to the code pointwise (RWInfoObs.tl
  sweep dimensions (harness/rwinfo.cpp, field "dim"): base = the assignments above; imm = for every form with an immediate the values
         0, 0xFF, -1, 0x11*n, 0x0F, 0xF0, 0x55, 0xAA, 0x5A, random x {no mask, {k} merge, {k}{z}} x {distinct, all-same} (instruction-specific special
         cases of query_rw_info are selected by the immediate, e.g. the vpternlog truth tables that ignore the destination); bid = the boundary
-        ids 0 7 8 15 16 17 31 in every vector operand position (VSIB index included) one at a time, the other operands low.
+        ids 0 7 8 15 16 17 31 in every vector operand position (VSIB index included) one at a time, the other operands low; sel = the
+        encoding selectors {vex} {vex3} {evex} on every VEX- / EVEX-encodable form (low ids, and {evex} with one id 16); requests the
+        assembler refuses are dropped.
         Every request is also EMITTED by x86::Assembler; "executes on any CPU that has the reported features" is judged against the encoding
         actually produced (EVEX 62h / VEX C4h C5h): the reported set must cover the EVEX resp. VEX row of this operand signature.
         Requests with a vector id >= 16 whose signature has no EVEX row (validator leniency, C01/C13) are not forms of the database: skipped.
@@ -63,7 +65,8 @@ def opstr(x):
 
 def describe(o):
     dec = (f" {{k{o['k']}}}" if o["k"] else "") + (" {z}" if o["z"] else "") + (" {rn-sae}" if o["er"] >= 0 else "") + (" {sae}" if o["sae"] else "")
-    return f"{o['m']}-bit {o['n']} {', '.join(opstr(x) for x in o['ops'])}{dec}"
+    sel = "".join(n for b, n in ((1024, "{vex} "), (512, "{vex3} "), (2048, "{evex} ")) if o.get("opt", 0) & b)
+    return f"{o['m']}-bit {sel}{o['n']} {', '.join(opstr(x) for x in o['ops'])}{dec}"
 
 
 def op_sig(x):
@@ -123,6 +126,7 @@ def op_fits(fo, x):
 
 
 def needs_evex_row(o):
+    if o.get("opt", 0) & 2048: return True          # {evex} selector (lib_x86forms.h O_EVEX): honoured even where no EVEX row exists (C01 finding)
     return any((x["t"] == "r" and x["c"] in VEC and x["id"] >= 16) or (x["t"] == "m" and x["it"] in VEC and x["i"] >= 16) for x in o["ops"])
 
 
@@ -240,6 +244,8 @@ def key_of(clause, arg, o):
         return f"evex-mask-ignored:{o['n']}:{sig}"
     deco = (("{k}" if o["k"] else "") + ("{z}" if o["z"] else "")) if clause in MASK_CLAUSES else ""
     if clause.startswith("zero-extension") or clause.endswith("-bytes"): deco += f":m{o['m']}"
+    if clause in ("features", "x-undefined-opcode-with-reported-features"):
+        deco += "".join(n for b, n in ((1024, ":{vex}"), (512, ":{vex3}"), (2048, ":{evex}")) if o.get("opt", 0) & b)
     a = clause_arg_text(clause, arg, o)
     if clause.endswith("-gp") or clause.endswith("-vec") or clause.endswith("-k"):
         # name the role of the register instead of its number: operand index that carries it, or "none"
@@ -348,8 +354,10 @@ def prepare(ctx, bdir, rw, obs_lines, forms, names):
             stats["out-of-scope: " + why] += 1; names_out[why].add(o["n"]); continue
         if o["val"] != 0:
             stats["not accepted by InstAPI::validate"] += 1; continue
+        if o.get("dim") == "sel" and o.get("ae", 1) != 0:
+            stats["encoding selector refused by the assembler (nothing to judge)"] += 1; continue
         if needs_evex_row(o) and not has_evex_row(o, rw, forms, names):
-            stats["not a database form: vector register id >= 16 for a signature without EVEX row (C01/C13)"] += 1; continue
+            stats["not a database form: vector register id >= 16 / {evex} for a signature without EVEX row (C01/C13)"] += 1; continue
         kept.append(o)
     return kept, stats, names_out
 
